@@ -35,7 +35,8 @@ Clause(ev, s) ==
 
 Apply(ev, s) ==
   CASE ev.op = "insert" -> [store |-> StorePut(s.store, ev.b, ev.o), tree |-> TreePut(s.tree, ev.b, ev.o),
-                            seen |-> IF s.allseen THEN s.seen ELSE Append(s.seen, ev.b), allseen |-> s.allseen]
+                            seen |-> IF s.allseen THEN s.seen ELSE Append(s.seen, ev.b),
+                            allseen |-> (s.allseen \/ \A k \in 1..Len(ev.b) : ev.b[k] = 0)]
     [] ev.op = "clear" -> Empty
     [] OTHER -> s
 
